@@ -327,6 +327,10 @@ pub mod tstd {
     pub assume_specification[usize::pow](x: usize, e: u32) -> (r: usize)
         requires vstd::arithmetic::power::pow(x as int, e as nat) <= usize::MAX,
         ensures r == vstd::arithmetic::power::pow(x as int, e as nat);
+    pub assume_specification[usize::saturating_pow](x: usize, e: u32) -> (r: usize)
+        ensures r == (if vstd::arithmetic::power::pow(x as int, e as nat) <= usize::MAX { vstd::arithmetic::power::pow(x as int, e as nat) as usize } else { usize::MAX });
+    pub assume_specification[i32::saturating_pow](x: i32, e: u32) -> (r: i32)
+        ensures r == (if vstd::arithmetic::power::pow(x as int, e as nat) > i32::MAX { i32::MAX } else if vstd::arithmetic::power::pow(x as int, e as nat) < i32::MIN { i32::MIN } else { vstd::arithmetic::power::pow(x as int, e as nat) as i32 });
     pub assume_specification[i32::checked_pow](x: i32, e: u32) -> (r: Option<i32>)
         ensures r == (if in_i32(vstd::arithmetic::power::pow(x as int, e as nat)) { Some(vstd::arithmetic::power::pow(x as int, e as nat) as i32) } else { None::<i32> });
     /// std: panics if rhs is zero, overflows for (MIN, -1); the quotient that goes with rem_euclid (0 <= remainder)
